@@ -44,13 +44,16 @@ type replayOutcome struct {
 }
 
 func inputsOf(vars []varRec, m Model) []replayInput {
-	out := make([]replayInput, len(vars))
-	for i, v := range vars {
+	out := make([]replayInput, 0, len(vars))
+	for _, v := range vars {
+		if strings.HasPrefix(v.Kind, "_") {
+			continue // engine-internal unconstrained value, not a harness input
+		}
 		val := v.Val
 		if v.term != nil {
 			val = m[v.Name]
 		}
-		out[i] = replayInput{Kind: v.Kind, Val: val}
+		out = append(out, replayInput{Kind: v.Kind, Val: val})
 	}
 	return out
 }
